@@ -28,6 +28,7 @@ TIERS = {
     "quick": {"runs": 600, "budget_s": 480, "det_pairs": 3},
     "thorough": {"runs": 100000, "budget_s": 1800, "det_pairs": 6},
 }
+SYSTEM_IN_RUN_PROCESS = True      # the code under test runs in the run process itself: its death by signal is the system's crash
 RUN_TIMEOUT = 900
 SHRINK_BUDGET = 40
 RULE = (
@@ -112,13 +113,20 @@ def gen_plan(seed, tier="quick"):
         first_valid = r.randrange(TROUGH + 1, min(ns - LENGTH, 400))
         spikes = [(first_valid + s[0] if i == 0 and s[0] <= TROUGH else s[0], s[1], s[2]) for i, s in enumerate(spikes)]
         spikes.sort(key=lambda x: (x[0], x[1]))
-    # documented assumption: no two spikes of one unit at the same sample (keep the first)
+    # no two IDENTICAL spikes (same sample, unit and peak channel) ...
     seen, uniq = set(), []
     for s_ in spikes:
         if (s_[0], s_[1]) not in seen:
             seen.add((s_[0], s_[1]))
             uniq.append(s_)
     spikes = uniq
+    # ... but a unit may well have two spikes at the same sample on different peak channels (a double detection)
+    if spikes and r.random() < 0.15:
+        t0, u0, pk0 = r.choice(spikes)
+        pk1 = (pk0 + r.choice([1, 2, nap // 2])) % nap
+        if pk1 != pk0:
+            spikes.append((t0, u0, pk1))
+            spikes.sort(key=lambda x: (x[0], x[1]))
     return {
         "property": PROP, "seed": seed, "fixture": fixture, "nap": nap, "ns": ns, "form": r.choice(["bin", "bin", "cbin"]),
         "data_seed": r.randrange(1 << 30), "spikes": [list(s) for s in spikes], "max_wf": max_wf,
